@@ -98,7 +98,7 @@ def run(ctx):
             cases.append(case)
         payloads = []
         for case in cases:
-            eps = case['eps'] or 0.0
+            eps = 0.0 if case['eps'] is None else case['eps']
             fields = []
             for nm in field_order(case):
                 cs = case['cons'][nm]
@@ -108,7 +108,7 @@ def run(ctx):
             payloads.append((case['strict'], fields, nrows))
         mouts = ctx.model.call_many(11, payloads) if ctx.model_ok else [None] * n
         for ci, (case, mo) in enumerate(zip(cases, mouts)):
-            eps = case['eps'] or 0.0
+            eps = 0.0 if case['eps'] is None else case['eps']
             df = C.frame_of(case['cols'])
             nrows = len(df)
             d = {'fields': {nm: {k: C.json_constraint(k, s) for k, s in cs.items()}
